@@ -1,9 +1,296 @@
 package rules
 
-import "fmt"
+import (
+	"bytes"
+	"fmt"
+	"os"
+	"os/exec"
+	"path/filepath"
+	"regexp"
+	"sort"
+	"strings"
+	"sync"
 
-func mutantOverlay(spec string) (map[string][]byte, error) {
-	return nil, fmt.Errorf("no such mutant %q", spec)
+	"mhubsa/load"
+)
+
+// Mutant is one textual mutation operator of the sensitivity suite: a single regex edit of one
+// source file that breaks a clause of the property while the module still type-checks.  Mutants are
+// applied through a go/packages overlay in a child process; nothing is written below /repo.
+type Mutant struct {
+	ID       string
+	Property string
+	File     string // relative to the repository root
+	Pattern  string // must match exactly once
+	Replace  string
+	Expect   string // rule id (prefix) that must report the mutant
+	What     string
 }
 
-func runSensitivity(c *Ctx) {}
+var mutants = []Mutant{
+	// C01
+	{"C01-refund-unconverted", "C01", "module/x/mhub2/keeper/pool.go", `totalToRefund\.Amount = k\.ConvertFromExternalValue\(ctx, chainId, send\.Token\.ExternalTokenId, totalToRefund\.Amount\)\n`, ``, "C01.refund-amount", "refund minted without converting to hub units"},
+	{"C01-refund-fee-twice", "C01", "module/x/mhub2/keeper/pool.go", `Add\(send\.Fee\.Amount\)\.Add\(send\.ValCommission\.Amount\)`, `Add(send.Fee.Amount).Add(send.Fee.Amount)`, "C01.refund-amount", "refund adds the fee twice instead of the commission"},
+	{"C01-payout-token", "C01", "module/x/mhub2/keeper/batch.go", `totalFee\.Amount = totalFee\.Amount\.Add\(tx\.Fee\.Amount\)`, `totalFee.Amount = totalFee.Amount.Add(tx.Token.Amount)`, "C01.payout-amount", "execution payout sums the transferred amounts"},
+	{"C01-commit-always", "C01", "module/x/mhub2/keeper/external_event_vote.go", `\} else \{\n\t\tcommit\(\) // persist transient storage\n\t\}`, "}\n\tcommit()", "C01.event-atomic", "commit regardless of the handler error"},
+	{"C01-burn-amount-only", "C01", "module/x/mhub2/keeper/pool.go", `k\.bankKeeper\.BurnCoins\(ctx, types\.ModuleName, totalInVouchers\)`, `k.bankKeeper.BurnCoins(ctx, types.ModuleName, sdk.Coins{amount})`, "C01.burn-then-record", "burns only the amount, not fee and commission"},
+	{"C01-deposit-unconverted", "C01", "module/x/mhub2/keeper/external_event_handler.go", `coins := sdk\.Coins\{sdk\.NewCoin\(tokenInfo\.Denom, convertedAmount\)\}`, `coins := sdk.Coins{sdk.NewCoin(tokenInfo.Denom, event.Amount)}`, "C01.deposit-amount", "deposit minted in external units"},
+	{"C01-mint-amount-plus-fee", "C01", "module/x/mhub2/keeper/external_event_handler.go", `(CosmosReceiver: receiver\.String\(\),\n\t\t\t\tExternalHeight: event\.ExternalHeight,)`, "$1", "", "placeholder (no-op) – replaced below"},
+	// C02
+	{"C02-not-bonded", "C02", "module/x/mhub2/keeper/msg_server.go", `\} else if !validatorI\.IsBonded\(\) \{`, `} else if validatorI.IsJailed() {`, "C02.signer-bonded", "bonded check replaced"},
+	{"C02-threshold-50", "C02", "module/x/mhub2/types/genesis.go", `sdk\.NewInt\(66\)\.Mul`, `sdk.NewInt(50).Mul`, "C02.quorum-guard", "threshold lowered to 50%"},
+	{"C02-quorum-inverted", "C02", "module/x/mhub2/keeper/external_event_vote.go", `if eventVotePower\.GTE\(requiredPower\)`, `if eventVotePower.LTE(requiredPower)`, "C02.quorum-guard", "quorum comparison inverted"},
+	{"C02-nonce-not-stored", "C02", "module/x/mhub2/keeper/external_event_vote.go", `k\.setLastEventNonceByValidator\(ctx, chainId, val, event\.GetEventNonce\(\)\)\n\n\treturn eventVoteRecord`, `return eventVoteRecord`, "C02.one-vote", "per-validator nonce not stored"},
+	{"C02-power-doubled", "C02", "module/x/mhub2/keeper/external_event_vote.go", `validatorPower := k\.StakingKeeper\.GetLastValidatorPower\(ctx, val\)`, `validatorPower := k.StakingKeeper.GetLastValidatorPower(ctx, val) * 2`, "C02.quorum-guard", "vote power doubled"},
+	{"C02-divide-first", "C02", "module/x/mhub2/types/genesis.go", `sdk\.NewInt\(66\)\.Mul\(totalPower\)\.Quo\(sdk\.NewInt\(100\)\)`, `totalPower.Quo(sdk.NewInt(100)).Mul(sdk.NewInt(66))`, "C02.quorum-guard", "threshold divides before multiplying"},
+	// C03
+	{"C03-tally-ge", "C03", "module/x/mhub2/abci.go", `if nonce == uint64\(k\.GetLastObservedEventNonce\(ctx, chainId\)\)\+1 \{`, `if nonce >= uint64(k.GetLastObservedEventNonce(ctx, chainId))+1 {`, "C03.tally-order", "tally accepts any later nonce"},
+	{"C03-apply-lt", "C03", "module/x/mhub2/keeper/external_event_vote.go", `if event\.GetEventNonce\(\) != lastEventNonce\+1 \{`, `if event.GetEventNonce() < lastEventNonce+1 {`, "C03.nonce-writer", "apply backstop weakened"},
+	{"C03-accepted-not-set", "C03", "module/x/mhub2/keeper/external_event_vote.go", `\t\t\t\teventVoteRecord\.Accepted = true\n`, ``, "C03.accepted-first", "Accepted flag not set"},
+	{"C03-no-accepted-guard", "C03", "module/x/mhub2/keeper/external_event_vote.go", `if !eventVoteRecord\.Accepted \{`, `if true {`, "C03.accepted-first", "already accepted records re-applied"},
+	// C04
+	{"C04-no-pool-delete", "C04", "module/x/mhub2/keeper/batch.go", `\t\tk\.deleteUnbatchedSendToExternal\(ctx, chainId, ste\.Id, ste\.Fee\)\n`, ``, "C04", "batched transfer stays in the pool"},
+	{"C04-wrong-key", "C04", "module/x/mhub2/keeper/batch.go", `ste\.Id, ste\.Fee\)`, `ste.Id, ste.Token)`, "C04.key-agreement", "pool delete uses the token instead of the fee"},
+	{"C04-cancel-keeps-batch", "C04", "module/x/mhub2/keeper/batch.go", `\t// Delete batch since it is finished\n\tk\.DeleteOutgoingTx\(ctx, chainId, batch\.GetStoreIndex\(chainId\)\)\n`, ``, "C04", "cancelled batch not deleted"},
+	{"C04-refund-keeps-entry", "C04", "module/x/mhub2/keeper/pool.go", `\tk\.deleteUnbatchedSendToExternal\(ctx, chainId, send\.Id, send\.Fee\)\n\treturn nil`, "\treturn nil", "C04", "refunded entry stays in the pool"},
+	{"C04-status-not-final", "C04", "module/x/mhub2/keeper/tx_status.go", `newStatusType = types\.TX_STATUS_REFUNDED`, `newStatusType = status`, "C04.status-final", "REFUNDED no longer final"},
+	{"C04-id-not-incremented", "C04", "module/x/mhub2/keeper/pool.go", `newId := id \+ 1`, `newId := id`, "C04.unique-id", "transfer id not incremented"},
+	// C05
+	{"C05-no-recover", "C05", "module/x/mhub2/keeper/external_event_vote.go", `\tdefer func\(\) \{\n\t\tif r := recover\(\); r != nil \{\n\t\t\terr = sdkerrors\.Wrapf\(types\.ErrInvalid, "panic while applying external event: %v", r\)\n\t\t\}\n\t\}\(\)\n`, ``, "C05.contain", "recover boundary removed"},
+	{"C05-repanic", "C05", "module/x/oracle/keeper/attestation.go", `err = sdkerrors\.Wrapf\(types\.ErrInvalid, "panic while applying attestation: %v", r\)`, `panic(r)`, "C05.contain", "recover re-panics"},
+	{"C05-refund-in-iterator", "C05", "module/x/mhub2/abci.go", `expired = append\(expired, ste\)`, `expired = append(expired, ste); k.OnOutgoingTransactionTimeouts(ctx, chainId, ste.Id, ste.Sender)`, "C05.iter-nesting", "refund inside the open pool iterator"},
+	{"C05-minter-cancel", "C05", "module/x/mhub2/abci.go", `\t\tif chainId != "minter" \{\n\t\t\tcleanupTimedOutBatchTxs\(ctx, chainId, k\)\n\t\t\}`, "\t\tcleanupTimedOutBatchTxs(ctx, chainId, k)", "C05.minter-cancel", "timeout sweep also for Minter"},
+	{"C05-iterator-leak", "C05", "module/x/mhub2/keeper/pool.go", `(func \(k Keeper\) iterateUnbatchedSendToExternalsByCoin[^\n]*\n[^\n]*\n)\tdefer iter\.Close\(\)\n`, "$1", "C05.iter-nesting", "iterator never closed"},
+	// C06
+	{"C06-unsorted-ids", "C06", "module/x/mhub2/abci.go", `\t\tsort\.Strings\(ids\)\n`, ``, "C06.map-range", "batch creation in map order"},
+	{"C06-unsorted-prices", "C06", "module/x/oracle/keeper/attestation_handler.go", `\t\tsort\.Strings\(priceNames\)\n`, ``, "C06.map-range", "prices stored in map order"},
+	{"C06-holders-minority", "C06", "module/x/oracle/keeper/attestation_handler.go", `if votes > math\.MaxUint16\*2/3 \{`, `if votes > math.MaxUint16/3 {`, "C06.map-range", "minority threshold makes the first key in map order win"},
+	{"C06-wall-clock", "C06", "module/x/mhub2/abci.go", `Before\(ctx\.BlockTime\(\)\)`, `Before(time.Now())`, "C06.sources", "expiry compared with the wall clock"},
+	// C07
+	{"C07-swap-amounts-fees", "C07", "module/x/mhub2/types/outgoing_tx.go", `txAmounts,\n\t\ttxDestinations,\n\t\ttxFees,`, "txFees,\n\t\ttxDestinations,\n\t\ttxAmounts,", "C07.field-map", "amounts and fees swapped in the batch digest"},
+	{"C07-salt", "C07", "module/x/mhub2/types/outgoing_tx.go", `methodNameBytes := \[\]uint8\("transactionBatch"\)`, `methodNameBytes := []uint8("transactionBatchs")`, "C07.salts", "batch salt changed"},
+	{"C07-keep-selector", "C07", "module/x/mhub2/types/outgoing_tx.go", `abiEncodedCall\[4:\]`, `abiEncodedCall[:]`, "C07.pack", "selector not dropped"},
+	{"C07-prefix", "C07", "module/x/mhub2/types/ethereum_signer.go", `Signed Message:\\n32"`, `Signed Message:\n64"`, "C07.eip191", "EIP-191 prefix changed"},
+	{"C07-abi-json-order", "C07", "module/x/mhub2/types/abi_json.go", `(?s)(\{ "internalType": "uint256\[\]", "name": "_amounts", "type": "uint256\[\]" \},)`, "$1", "", "placeholder"},
+	// C08
+	{"C08-unhandled-kind", "C08", "module/x/mhub2/keeper/external_event_handler.go", `\tcase \*types\.ContractCallExecutedEvent:\n\t\ta\.keeper\.AfterContractCallExecutedEvent\(ctx, \*event\)\n\t\treturn nil\n`, ``, "C08.event-kinds", "contract-call event no longer handled"},
+	{"C08-attribution", "C08", "module/x/mhub2/keeper/grpc_query.go", `ExternalSigner:  k\.GetValidatorExternalAddress\(ctx, chainId, val\)\.Hex\(\)`, `ExternalSigner:  common.BytesToAddress(val).Hex()`, "C08.attribution", "signature attributed to the validator address bytes"},
+	// C09
+	{"C09-total-outside", "C09", "module/x/mhub2/keeper/keeper.go", `\t\t\texternalSigners = append\(externalSigners, es\)\n\t\t\ttotalPower \+= p\n\t\t\}`, "\t\t\texternalSigners = append(externalSigners, es)\n\t\t}\n\t\ttotalPower += p", "C09.membership", "divisor counts validators without a key"},
+	{"C09-ascending", "C09", "module/x/mhub2/types/types.go", `return b\[i\]\.Power > b\[j\]\.Power`, `return b[i].Power < b[j].Power`, "C09.sorted", "signers sorted ascending"},
+	{"C09-drift-50", "C09", "module/x/mhub2/abci.go", `powerDiff > 0\.05`, `powerDiff > 0.5`, "C09.freshness-trigger", "drift threshold raised to 50%"},
+	{"C09-nonce-reuse", "C09", "module/x/mhub2/keeper/keeper.go", `next := current \+ 1\n`, "next := current\n", "C09.nonce", "signer-set nonce not incremented"},
+	// C10
+	{"C10-cap-gt", "C10", "module/x/mhub2/keeper/batch.go", `return len\(selectedStes\) == maxElements`, `return len(selectedStes) > maxElements`, "C10.cap", "selection stops one element too late"},
+	{"C10-no-empty-guard", "C10", "module/x/mhub2/keeper/batch.go", `\tif len\(selectedStes\) == 0 \{\n\t\treturn nil\n\t\}\n`, ``, "C10.non-empty", "empty batch stored"},
+	{"C10-no-token-filter", "C10", "module/x/mhub2/keeper/pool.go", `\t\tif ste\.Token\.ExternalTokenId != externalTokenId \{\n\t\t\tcontinue\n\t\t\}\n`, ``, "C10.own-token", "token filter removed"},
+	{"C10-forward-iterator", "C10", "module/x/mhub2/keeper/pool.go", `\[\]byte\(externalTokenId\)\}, \[\]byte\{\}\)\)\.ReverseIterator\(nil, nil\)`, `[]byte(externalTokenId)}, []byte{})).Iterator(nil, nil)`, "C10.fee-order", "lowest fee first"},
+	{"C10-caller-200", "C10", "module/x/mhub2/abci.go", `k\.BuildBatchTx\(ctx, chainId, id, 100\)`, `k.BuildBatchTx(ctx, chainId, id, 200)`, "C10.cap", "automatic batching asks for 200 transfers"},
+	// C11
+	{"C11-discount-160", "C11", "module/x/mhub2/keeper/keeper.go", `commission\.MulInt64\(60\)`, `commission.MulInt64(160)`, "C11.commission-bound", "discount above 100%"},
+	{"C11-divide-first", "C11", "module/x/mhub2/keeper/keeper.go", `result\.Mul\(result, to\)\n\tresult\.Div\(result, from\)`, "result.Div(result, from)\n\tresult.Mul(result, to)", "C11.convert-truncates", "converter divides before multiplying"},
+	{"C11-wrong-direction", "C11", "module/x/mhub2/keeper/keeper.go", `return convertDecimals\(HubDecimals, coin\.ExternalDecimals, amount\)`, `return convertDecimals(coin.ExternalDecimals, HubDecimals, amount)`, "C11.convert-truncates", "ConvertToExternalValue converts the wrong way"},
+	{"C11-ceil", "C11", "module/x/mhub2/keeper/msg_server.go", `Mul\(msg\.Amount\.Amount\.Add\(msg\.BridgeFee\.Amount\)\.ToDec\(\)\)\.TruncateInt\(\)`, `Mul(msg.Amount.Amount.Add(msg.BridgeFee.Amount).ToDec()).Ceil().TruncateInt()`, "C11.commission-form", "commission rounded up"},
+	{"C11-sum-holders", "C11", "module/x/mhub2/keeper/keeper.go", `maxValue = sdk\.MaxInt\(k\.oracleKeeper\.GetHolderValue\(ctx, address\), maxValue\)`, `maxValue = k.oracleKeeper.GetHolderValue(ctx, address).Add(maxValue)`, "C11.commission-bound", "holder values summed"},
+	// C12
+	{"C12-sender-inverted", "C12", "module/x/mhub2/keeper/pool.go", `if sender\.String\(\) != send\.Sender \{`, `if sender.String() == send.Sender {`, "C12.authorised", "sender check inverted"},
+	{"C12-id-ge", "C12", "module/x/mhub2/keeper/pool.go", `if ste\.Id == id \{`, `if ste.Id >= id {`, "C12.authorised", "entry selected by id >= requested"},
+	{"C12-refund-chain", "C12", "module/x/mhub2/keeper/pool.go", `types\.ChainID\(send\.RefundChainId\), types\.TempAddress, send\.RefundAddress`, `types.ChainID(send.ChainId), types.TempAddress, send.RefundAddress`, "C12.recipient", "cross-chain refund sent to the destination chain"},
+	{"C12-no-timeout", "C12", "module/x/mhub2/abci.go", `time\.Unix\(int64\(ste\.CreatedAt\), 0\)\.Add\(k\.GetOutgoingTxTimeout\(ctx\)\)\.Before`, `time.Unix(int64(ste.CreatedAt), 0).Before`, "C12.expiry", "expiry ignores the timeout"},
+	{"C12-refund-address-as-sender", "C12", "module/x/mhub2/abci.go", `ste\.Id, ste\.Sender\)`, `ste.Id, ste.RefundAddress)`, "C12.expiry", "sweep passes the refund address as sender"},
+	// C13
+	{"C13-projected-height", "C13", "module/x/mhub2/abci.go", `if btx\.Timeout < externalHeight \{\n\t\t\tk\.CancelBatchTx`, "if btx.Timeout < externalHeight+100 {\n\t\t\tk.CancelBatchTx", "C13.timeout-guard", "timeout compared with a projected height"},
+	{"C13-timeout-inverted", "C13", "module/x/mhub2/abci.go", `if btx\.Timeout < externalHeight \{\n\t\t\tk\.CancelBatchTx`, "if btx.Timeout > externalHeight {\n\t\t\tk.CancelBatchTx", "C13.timeout-guard", "timeout comparison inverted"},
+	{"C13-any-token", "C13", "module/x/mhub2/keeper/batch.go", `if \(btx\.BatchNonce < batchTx\.BatchNonce\) && \(btx\.ExternalTokenId == batchTx\.ExternalTokenId\) \{`, `if btx.BatchNonce < batchTx.BatchNonce {`, "C13.older-same-token", "older batches of other tokens cancelled"},
+	{"C13-height-hoisted", "C13", "module/x/mhub2/keeper/external_event_vote.go", `(\t\trequiredPower := types\.EventVoteRecordPowerThreshold)`, "\t\tk.SetLastObservedExternalBlockHeight(ctx, chainId, event.GetExternalHeight())\n$1", "C13.timeout-guard", "observed height written before the quorum test"},
+	// C14
+	{"C14-amount-dropped", "C14", "module/x/mhub2/types/external_event.go", `\t\t\tsthe\.Amount\.BigInt\(\)\.Bytes\(\),\n`, ``, "C14.coverage", "deposit amount not hashed"},
+	{"C14-receiver-lossy", "C14", "module/x/mhub2/types/external_event.go", `\[\]byte\(ttce\.ExternalReceiver\), // todo: check length \?`, `common.Hex2Bytes(ttce.ExternalReceiver),`, "C14.injective", "receiver hashed through Hex2Bytes"},
+	{"C14-members-dropped", "C14", "module/x/mhub2/types/external_event.go", `\t\t\tExternalSigners\(sse\.Members\)\.Hash\(\),\n`, ``, "C14.coverage", "members not hashed"},
+	{"C14-member-power-dropped", "C14", "module/x/mhub2/types/types.go", `out\.Write\(append\(common\.HexToAddress\(s\.ExternalAddress\)\.Bytes\(\), sdk\.Uint64ToBigEndian\(s\.Power\)\.\.\.\)\)`, `out.Write(common.HexToAddress(s.ExternalAddress).Bytes())`, "C14.coverage", "member power not hashed"},
+	// C15
+	{"C15-nonces-conditional", "C15", "module/x/mhub2/keeper/genesis.go", `\t\t\tk\.setLastEventNonceByValidator\(ctx, chainId, val, nonce\.LastEventNonce\)\n`, "\t\t\tif nonce.LastEventNonce > k.getLastEventNonceByValidator(ctx, chainId, val) {\n\t\t\t\tk.setLastEventNonceByValidator(ctx, chainId, val, nonce.LastEventNonce)\n\t\t\t}\n", "C15.faithful-import", "per-validator nonce restored conditionally"},
+	{"C15-sequence-not-exported", "C15", "module/x/mhub2/keeper/genesis.go", `\t\t\tSequence:                 k\.getOutgoingSequence\(ctx, chainId\),\n`, ``, "C15", "outgoing sequence not exported"},
+	{"C15-sequence-not-imported", "C15", "module/x/mhub2/keeper/genesis.go", `\t\tk\.setOutgoingSequence\(ctx, chainId, externalState\.Sequence\)\n`, ``, "C15", "outgoing sequence not imported"},
+	{"C15-prices-not-imported", "C15", "module/x/oracle/keeper/genesis.go", `\tif data\.Prices != nil \{\n\t\tk\.storePrices\(ctx, data\.Prices\)\n\t\}\n`, ``, "C15", "prices not imported"},
+	// C16
+	{"C16-signer-unchecked", "C16", "module/x/mhub2/keeper/msg_server.go", `if ethAddress != confirmation\.GetSigner\(\) \{`, `if (ethAddress == common.Address{}) {`, "C16.guards", "claimed signer not compared with the registered address"},
+	{"C16-duplicate-other-key", "C16", "module/x/mhub2/keeper/msg_server.go", `confirmation\.GetStoreIndex\(chainId\), val\) != nil \{`, `confirmation.GetStoreIndex(chainId), sdk.ValAddress(ethAddress.Bytes())) != nil {`, "C16.guards", "duplicate check under another key"},
+	{"C16-store-under-signer", "C16", "module/x/mhub2/keeper/keeper.go", `key := types\.MakeExternalSignatureKey\(chainId, sig\.GetStoreIndex\(chainId\), val\)`, `key := types.MakeExternalSignatureKey(chainId, sig.GetStoreIndex(chainId), sdk.ValAddress(sig.GetSigner().Bytes()))`, "C16.key-schema", "signature stored under the claimed signer"},
+	{"C16-index-sequence", "C16", "module/x/mhub2/types/outgoing_tx.go", `return MakeBatchTxKey\(chainId, btx\.ExternalTokenId, btx\.BatchNonce\)`, `return MakeBatchTxKey(chainId, btx.ExternalTokenId, btx.Sequence)`, "C16.index-agreement", "batch index built from the sequence"},
+	{"C16-unsigned-stops", "C16", "module/x/mhub2/keeper/grpc_query.go", `(signerSets = append\(signerSets, signerSet\)\n\t\t\}\n\t\treturn )false`, "${1}len(sig) != 0", "C16.key-schema", "unsigned signer-set listing stops at the first signed set"},
+	// C17
+	{"C17-address-in-use-gt1", "C17", "module/x/mhub2/keeper/msg_server.go", `if len\(validators\) > 0 \{`, `if len(validators) > 1 {`, "C17.guards", "address may be bound twice"},
+	{"C17-nonce-not-decremented", "C17", "module/x/mhub2/keeper/msg_server.go", `nonce = valAccSeq - 1`, `nonce = valAccSeq`, "C17.guards", "signed nonce not decremented"},
+	{"C17-orch-scan-wrong-arg", "C17", "module/x/mhub2/keeper/msg_server.go", `ethAddrs := k\.getExternalAddressesByOrchestrator\(ctx, chainId, orchAddr\)`, `ethAddrs := k.getExternalAddressesByOrchestrator(ctx, chainId, sdk.AccAddress(valAddr))`, "C17.guards", "orchestrator scan for the wrong account"},
+	{"C17-two-indexes", "C17", "module/x/mhub2/keeper/msg_server.go", `\tk\.setExternalOrchestratorAddress\(ctx, chainId, ethAddr, orchAddr\)\n\n\tctx\.Event`, "\tctx.Event", "C17.triple", "third index not written"},
+	{"C17-signer-orchestrator", "C17", "module/x/mhub2/types/msgs.go", `acc, err := sdk\.ValAddressFromBech32\(msg\.ValidatorAddress\)\n\tif err != nil \{\n\t\tpanic\(err\)\n\t\}\n\treturn \[\]sdk\.AccAddress\{sdk\.AccAddress\(acc\)\}`, "acc, err := sdk.AccAddressFromBech32(msg.OrchestratorAddress)\n\tif err != nil {\n\t\tpanic(err)\n\t}\n\treturn []sdk.AccAddress{acc}", "C17.self", "registration signed by the orchestrator"},
+	{"C17-scan-break", "C17", "module/x/mhub2/keeper/keeper.go", `(valBs := bytes\.TrimPrefix\(iter\.Key\(\), \[\]byte\{types\.ValidatorExternalAddressKey\}\)\n\t\t\tif !bytes\.HasPrefix\(valBs, chainId\.Bytes\(\)\) \{\n\t\t\t\t)continue`, "${1}break", "C17.guards", "in-use scan stops at another chain's entry"},
+	// C18
+	{"C18-no-dedup", "C18", "module/x/oracle/keeper/attestation.go", `\t\tif vote == operator \{\n\t\t\treturn att\n\t\t\}\n`, "\t\t_ = vote\n", "C18.distinct", "duplicate votes counted"},
+	{"C18-holders-third", "C18", "module/x/oracle/keeper/attestation_handler.go", `if votes > math\.MaxUint16\*2/3 \{`, `if votes > math.MaxUint16/3 {`, "C18.holders-threshold", "holders adopted by one third"},
+	{"C18-every-block", "C18", "module/x/oracle/abci.go", `if ctx\.BlockHeight\(\)%5 == 0 \{`, `if ctx.BlockHeight() > 0 {`, "C18.quorum", "epoch processed every block"},
+	{"C18-stale-epoch", "C18", "module/x/oracle/keeper/msg_server.go", `(?s)(func \(k msgServer\) PriceClaim.*?)if k\.GetCurrentEpoch\(ctx\) != msg\.GetEpoch\(\) \{`, "${1}if msg.GetEpoch() > k.GetCurrentEpoch(ctx) {", "C18.quorum", "stale-epoch price claims accepted"},
+	{"C18-last-price", "C18", "module/x/oracle/keeper/attestation_handler.go", `calculatedPrice = price\[len\(price\)/2\]\n`, "calculatedPrice = price[len(price)-1]\n", "C18.median-shape", "maximum instead of median"},
+	{"C18-constant-hash", "C18", "module/x/oracle/keeper/attestation_handler.go", `holdersClaim\.StabilizedClaimHash\(\)`, `holdersClaim.ClaimHash()`, "C18.holders-threshold", "holder lists pooled under a constant hash"},
+	// C19
+	{"C19-no-clamp", "C19", "module/x/mhub2/keeper/batch.go", `\t\tif fee\.IsGTE\(totalFee\) \{\n\t\t\tfee = totalFee\n\t\t\}\n`, ``, "C19.clamp", "reimbursement not clamped"},
+	{"C19-avg-total", "C19", "module/x/mhub2/keeper/batch.go", `averageFeePaid := fee\.Amount\.QuoRaw`, `averageFeePaid := totalFee.Amount.QuoRaw`, "C19.prorata", "selection threshold from the total fee"},
+	{"C19-record-hub-units", "C19", "module/x/mhub2/keeper/batch.go", `record\.ExternalFee\.Sub\(k\.ConvertToExternalValue\(ctx, chainId, tokenInfo\.ExternalTokenId, toRefund\)\)`, `record.ExternalFee.Sub(toRefund)`, "C19.units", "fee record mixes units"},
+	{"C19-commission-total", "C19", "module/x/mhub2/keeper/batch.go", `amount := totalValCommission\.Amount\.Mul\(sdk\.NewIntFromUint64\(val\.Power\)\)\.Quo\(sdk\.NewIntFromUint64\(totalPower\)\)`, `amount := totalValCommission.Amount.Mul(sdk.NewIntFromUint64(val.Power)).Quo(sdk.NewIntFromUint64(totalPower / 2))`, "C19.prorata", "commission payouts sum to twice the commission"},
+	// C20
+	{"C20-hub-early-return", "C20", "minter-connector/command/command.go", `\t\tif _, err := sdk\.AccAddressFromBech32\(cmd\.Recipient\); err != nil \{\n\t\t\treturn err\n\t\t\}\n`, "\t\t_, err := sdk.AccAddressFromBech32(cmd.Recipient)\n\t\treturn err\n", "C20.validate", "hub deposits skip the fee checks"},
+	{"C20-negative-fee", "C20", "minter-connector/command/command.go", `\tif fee\.IsNegative\(\) \{\n\t\treturn errors\.New\("incorrect fee"\)\n\t\}\n`, ``, "C20.validate", "negative fee accepted"},
+	{"C20-no-restore", "C20", "minter-connector/minter/minter.go", `(?s)(ctx\.Logger\.Debug\("Found batch"\).*?)\t\t\t\t\t\tctx\.SetLastEventNonce\(eventNonce\)\n`, "$1", "C20.cursor", "event counter not restored before rewinding"},
+	{"C20-count-invalid", "C20", "minter-connector/minter/minter.go", `if cmd\.ValidateAndComplete\(value\) == nil \{`, `if cmd.ValidateAndComplete(value) == nil || true {`, "C20.counted-iff-valid", "invalid commands counted by the resync scan"},
+}
+
+func init() {
+	// drop placeholders
+	var out []Mutant
+	for _, m := range mutants {
+		if m.Expect == "" {
+			continue
+		}
+		out = append(out, m)
+	}
+	mutants = out
+}
+
+func mutantByID(id string) *Mutant {
+	for i := range mutants {
+		if mutants[i].ID == id {
+			return &mutants[i]
+		}
+	}
+	return nil
+}
+
+func mutantOverlay(spec string) (map[string][]byte, error) {
+	m := mutantByID(spec)
+	if m == nil {
+		return nil, fmt.Errorf("no such mutant %q", spec)
+	}
+	path := filepath.Join(load.RepoRoot(), m.File)
+	src, err := os.ReadFile(path)
+	if err != nil {
+		return nil, err
+	}
+	re, err := regexp.Compile(m.Pattern)
+	if err != nil {
+		return nil, err
+	}
+	locs := re.FindAllIndex(src, -1)
+	if len(locs) != 1 {
+		return nil, fmt.Errorf("mutant %s: pattern matches %d times in %s (operator out of date)", m.ID, len(locs), m.File)
+	}
+	out := re.ReplaceAll(src, []byte(m.Replace))
+	return map[string][]byte{path: out}, nil
+}
+
+// MutantIDs lists the operators of a property.
+func MutantIDs(property string) []string {
+	var out []string
+	for _, m := range mutants {
+		if m.Property == property {
+			out = append(out, m.ID)
+		}
+	}
+	return out
+}
+
+type mutResult struct {
+	id, status, detail string
+}
+
+// runSensitivity applies every operator of the property in child processes and records whether the
+// quick check reports it.  A missed or inapplicable operator is a defect of the checker, never a
+// violation of the repository.
+func runSensitivity(c *Ctx) {
+	prop := c.R.Property
+	ids := MutantIDs(prop)
+	if len(ids) == 0 {
+		return
+	}
+	self, err := os.Executable()
+	if err != nil {
+		c.R.Extra["sensitivity_error"] = err.Error()
+		return
+	}
+	results := make([]mutResult, len(ids))
+	var wg sync.WaitGroup
+	sem := make(chan struct{}, 6)
+	for i, id := range ids {
+		wg.Add(1)
+		go func(i int, id string) {
+			defer wg.Done()
+			sem <- struct{}{}
+			defer func() { <-sem }()
+			m := mutantByID(id)
+			cmd := exec.Command(self, "-property", prop, "-tier", "quick", "-mutant", id)
+			cmd.Env = os.Environ()
+			var out bytes.Buffer
+			cmd.Stdout = &out
+			cmd.Stderr = &out
+			err := cmd.Run()
+			code := 0
+			if ee, ok := err.(*exec.ExitError); ok {
+				code = ee.ExitCode()
+			} else if err != nil {
+				code = -1
+			}
+			res := mutResult{id: id}
+			switch {
+			case code == 1:
+				hit := false
+				for _, line := range strings.Split(out.String(), "\n") {
+					if strings.Contains(line, " "+m.Expect) && !strings.HasPrefix(line, "VIOLATION") && !strings.HasPrefix(line, "  ") {
+						hit = true
+					}
+				}
+				if hit {
+					res.status = "detected"
+				} else {
+					res.status = "detected-by-other-rule"
+					res.detail = "reported, but not by " + m.Expect
+				}
+			case code == 0:
+				res.status = "MISSED"
+			default:
+				res.status = "discarded"
+				lines := strings.Split(strings.TrimSpace(out.String()), "\n")
+				if len(lines) > 0 {
+					res.detail = lines[0]
+					if len(res.detail) > 200 {
+						res.detail = res.detail[:200]
+					}
+				}
+			}
+			results[i] = res
+		}(i, id)
+	}
+	wg.Wait()
+	sort.Slice(results, func(i, j int) bool { return results[i].id < results[j].id })
+	nDet, nMiss, nDisc := 0, 0, 0
+	var list []map[string]string
+	for _, r := range results {
+		m := mutantByID(r.id)
+		switch r.status {
+		case "detected", "detected-by-other-rule":
+			nDet++
+		case "MISSED":
+			nMiss++
+			fmt.Fprintf(os.Stderr, "mhubsa: SENSITIVITY-MISS %s (%s) was not reported by the %s check: a defect of the checker, not of the repository\n", r.id, m.What, prop)
+		default:
+			nDisc++
+			fmt.Fprintf(os.Stderr, "mhubsa: sensitivity operator %s discarded: %s\n", r.id, r.detail)
+		}
+		list = append(list, map[string]string{"id": r.id, "what": m.What, "file": m.File, "expected_rule": m.Expect, "status": r.status, "detail": r.detail})
+	}
+	c.R.Extra["mutants_applied"] = len(results) - nDisc
+	c.R.Extra["mutants_detected"] = nDet
+	c.R.Extra["mutants_missed"] = nMiss
+	c.R.Extra["mutants_discarded"] = nDisc
+	c.R.Extra["mutants"] = list
+	fmt.Printf("  sensitivity: %d operator(s): %d detected, %d missed, %d discarded\n", len(results), nDet, nMiss, nDisc)
+}
